@@ -67,7 +67,9 @@ def cases(rng, tier):
 				tes = [None, b'chunked', b'Chunked', b'CHUNKED', b'gzip', b'gzip, chunked', b'identity', b'chunked ', b'x-unknown']
 				trs = [(None, ()), (b'X-T', ((b'X-T', b'v'),)), (b'X-T', ()), (None, ((b'X-T', b'v'),)), (b'X-T', ((b'X-T', b'v'), (b'X-U', b'w'))),
 					(b'Content-Length', ((b'Content-Length', b'99'),)), (b'X-T', ((b'Content-Length', b'99'),)), (b'transfer-encoding', ((b'Transfer-Encoding', b'chunked'),)),
-					(b'Trailer', ((b'Trailer', b'X'),)), (b'X-T, X-U', ((b'x-u', b'1'), (b'X-T', b'2'), (b'x-t', b'3'))), (b'X-T', ((b'X-T', b'v'), (b'Host', b'evil'))), (b'Host', ((b'Host', b'evil'),))]
+					(b'Trailer', ((b'Trailer', b'X'),)), (b'X-T, X-U', ((b'x-u', b'1'), (b'X-T', b'2'), (b'x-t', b'3'))), (b'X-T', ((b'X-T', b'v'), (b'Host', b'evil'))), (b'Host', ((b'Host', b'evil'),)),
+					# names with a percent sign (a token character; messages are formatted with %), names of fields the message already has
+					(None, ((b'X-%s', b'v'),)), (b'X-T', ((b'X-T', b'v'), (b'X-Load-%', b'1'))), (b'%x', ((b'%x', b'1'),)), (None, ((b'Host', b'evil'),)), (b'X-T', ((b'host', b'evil'),)), (None, ((b'Transfer-Encoding', b'chunked'),))]
 				for cl in cls:
 					for te in tes:
 						for th, tr in (trs if te else trs[:1]):
